@@ -114,6 +114,8 @@ class DFV:
             return Tup([self.nrows, sp.Integer(len(self.cols))])
         if name in ("to_string", "items", "drop", "copy"):
             return BoundLib(f"DataFrame.{name}", self)
+        if name == "iterrows":
+            return BoundLib("DataFrame.iterrows", self)
         raise ev.err(f"DataFrame attribute {name}", node, mod)
 
     def sym_subscript(self, ev, idx, n, mod):
@@ -369,7 +371,17 @@ def lib_len_seq(ev, a, k, n, mod):
     return lib_len(ev, a, k, n, mod)
 
 
+def lib_iterrows(ev, a, k, n, mod):
+    """df.iterrows(): one summarised iteration (all-rows index, the row as elementwise values)"""
+    df = a[0]
+    t = Tup([Tup([LoopIdx(df), RowV(df)])], "list")
+    t.elementwise_seq = True
+    t.elementwise_owner = df
+    return t
+
+
 DF_LIB = {
+    "DataFrame.iterrows": lib_iterrows,
     "row.items": lib_row_items, "len": lib_len_seq,
     "pandas.DataFrame": lib_dataframe, "range": lib_range_sym, "numpy.linspace": lib_linspace,
     "numpy.min": lib_min, "numpy.max": lib_max, "numpy.amin": lib_min, "numpy.amax": lib_max,
